@@ -28,7 +28,7 @@ ASSUMPTIONS = [
     "commands no ordering rule mentions are not ranked; ties inside one rank are not judged",
     "metamorphic relation is evaluated only when the reduced patch's commands are a sub-multiset of the full patch's commands (otherwise the deleted row was not unrelated)",
 ]
-FLOORS = {"quick": {"patches_ranked": 1500, "ranked_pairs": 3000, "sort_calls": 3000, "configs_ordered": 1500, "metamorphic_pairs": 150, "several_global_rule_cases": 300, "echoed_family_cases": 300, "unordered_blocks_compared": 500, "commented_patches": 300, "commented_commands": 600, "scoped_rule_cases": 300, "ordering_lines_with_tab_before_params": 300, "mirrored_pairs_checked": 150, "cases_with_a_global_block_rule_that_has_nested_rules": 150, "ordering_rules_with_an_inline_letter_case_marker": 1000, "removals_spelled_positively_under_a_positive_pin": 300, "global_pins": 500, "undo_redo_changes_beside_their_own_removal": 100, "ordering_rules_with_params_on_a_line_at_the_left_margin": 60, "cases_with_two_block_kinds_sharing_nested_rule_texts": 500},
+FLOORS = {"quick": {"patches_ranked": 1500, "ranked_pairs": 3000, "sort_calls": 3000, "configs_ordered": 1500, "metamorphic_pairs": 150, "several_global_rule_cases": 300, "echoed_family_cases": 300, "unordered_blocks_compared": 500, "commented_patches": 300, "commented_commands": 600, "scoped_rule_cases": 300, "ordering_lines_with_tab_before_params": 300, "mirrored_pairs_checked": 150, "cases_with_a_global_block_rule_that_has_nested_rules": 150, "ordering_rules_with_an_inline_letter_case_marker": 1000, "removals_spelled_positively_under_a_positive_pin": 300, "global_pins": 500, "undo_redo_changes_beside_their_own_removal": 50, "ordering_rules_with_params_on_a_line_at_the_left_margin": 60, "cases_with_two_block_kinds_sharing_nested_rule_texts": 500},
           "thorough": {"patches_ranked": 60000, "ranked_pairs": 100000, "sort_calls": 100000, "configs_ordered": 60000, "metamorphic_pairs": 300, "several_global_rule_cases": 10000, "echoed_family_cases": 10000, "unordered_blocks_compared": 15000, "commented_patches": 10000, "commented_commands": 20000, "scoped_rule_cases": 10000}}
 VENDORS = c01.BLOCK_VENDORS
 KNOWN_ZERO = "C08/first-ordering-rule-has-rank-zero"
